@@ -184,6 +184,31 @@ func (c *Ctx) resolveX(v ssa.Value, e *env, strip bool) (ssa.Value, *env) {
 						continue
 					}
 				}
+				// field f of element k of a package-level slice-of-struct literal, read through a copy of the
+				// element in a local (for _, c := range checks { c.failed(…) }) or in place (&checks[i].failed)
+				if fa, ok := x.X.(*ssa.FieldAddr); ok && e != nil && !e.dom {
+					var ia *ssa.IndexAddr
+					switch base := fa.X.(type) {
+					case *ssa.IndexAddr:
+						ia = base
+					case *ssa.Alloc:
+						if stored, ok := e.mem[base]; ok {
+							if ld, ok := stored.(*ssa.UnOp); ok && ld.Op == token.MUL {
+								ia, _ = ld.X.(*ssa.IndexAddr)
+							}
+						}
+					}
+					if ia != nil {
+						if n, isC := constIntVal(c.resolve(ia.Index, e)); isC {
+							if g := c.globalBehind(ia.X, e); g != nil {
+								if fv := c.globalSliceField(g, n, fa.Field); fv != nil {
+									v = fv
+									continue
+								}
+							}
+						}
+					}
+				}
 				// element k of a local array literal ([2]any{a, b} ranged over)
 				if ia, ok := x.X.(*ssa.IndexAddr); ok && e != nil && !e.dom {
 					if al, isAl := ia.X.(*ssa.Alloc); isAl && arrayOf(al.Type()) != nil {
@@ -223,6 +248,25 @@ func (c *Ctx) resolveX(v ssa.Value, e *env, strip bool) (ssa.Value, *env) {
 		case *ssa.ChangeInterface:
 			v = x.X
 			continue
+		case *ssa.Field:
+			// field f of element k of a package-level slice-of-struct literal (a table of checks / attempts
+			// interpreted by a generic loop): the value stored there by the package initialiser
+			if e == nil || e.dom {
+				return v, e
+			}
+			if ld, ok := x.X.(*ssa.UnOp); ok && ld.Op == token.MUL {
+				if ia, ok := ld.X.(*ssa.IndexAddr); ok {
+					if n, isC := constIntVal(c.resolve(ia.Index, e)); isC {
+						if g := c.globalBehind(ia.X, e); g != nil {
+							if fv := c.globalSliceField(g, n, x.Field); fv != nil {
+								v = fv
+								continue
+							}
+						}
+					}
+				}
+			}
+			return v, e
 		case *ssa.Index:
 			// element k of a local array literal that was loaded whole ([2]any{a, b} ranged over by value)
 			if e == nil || e.dom {
@@ -263,6 +307,11 @@ func (c *Ctx) resolveX(v ssa.Value, e *env, strip bool) (ssa.Value, *env) {
 				if _, isSl := x.Call.Args[0].Type().Underlying().(*types.Slice); isSl {
 					if lit, _, ok := c.sliceLiteralE(x.Call.Args[0], e); ok {
 						return ssa.NewConst(constant.MakeInt64(int64(len(lit))), x.Type()), e
+					}
+					if g := c.globalBehind(x.Call.Args[0], e); g != nil {
+						if n := c.globalSliceLen(g); n >= 0 {
+							return ssa.NewConst(constant.MakeInt64(n), x.Type()), e
+						}
 					}
 				}
 			}
@@ -703,6 +752,97 @@ func widensInt(from, to types.Type) bool {
 		return size(tb) > size(fb)
 	}
 	return false
+}
+
+// globalBehind: v is (through parameter bindings) a load of a package-level variable of the module.
+func (c *Ctx) globalBehind(v ssa.Value, e *env) *ssa.Global {
+	rv, _ := c.resolveE(v, e)
+	ld, ok := rv.(*ssa.UnOp)
+	if !ok || ld.Op != token.MUL {
+		return nil
+	}
+	g, ok := ld.X.(*ssa.Global)
+	if !ok || g.Pkg == nil || !strings.HasPrefix(g.Pkg.Pkg.Path(), modPath) {
+		return nil
+	}
+	return g
+}
+
+// globalSliceArray: the literal array behind a package-level slice that is assigned exactly once, in the
+// package initialiser, from a composite literal (nil otherwise).
+func (c *Ctx) globalSliceArray(g *ssa.Global) *ssa.Alloc {
+	memo := "gslice:" + g.Pkg.Pkg.Path() + "." + g.Name()
+	if v, ok := c.roles[memo]; ok {
+		a, _ := v.(*ssa.Alloc)
+		return a
+	}
+	c.roles[memo] = (*ssa.Alloc)(nil)
+	init := g.Pkg.Func("init")
+	var arr *ssa.Alloc
+	n := 0
+	for _, f := range c.Funcs {
+		for _, b := range f.Blocks {
+			for _, in := range b.Instrs {
+				st, ok := in.(*ssa.Store)
+				if !ok || st.Addr != ssa.Value(g) {
+					continue
+				}
+				n++
+				if f != init {
+					return nil
+				}
+				if sl, ok := st.Val.(*ssa.Slice); ok && sl.Low == nil && sl.High == nil {
+					arr, _ = sl.X.(*ssa.Alloc)
+				}
+			}
+		}
+	}
+	if n != 1 || arr == nil || arrayOf(arr.Type()) == nil {
+		return nil
+	}
+	c.roles[memo] = arr
+	return arr
+}
+
+func (c *Ctx) globalSliceLen(g *ssa.Global) int64 {
+	arr := c.globalSliceArray(g)
+	if arr == nil {
+		return -1
+	}
+	return arrayOf(arr.Type()).Len()
+}
+
+// globalSliceField: the value stored in field f of element k of the literal behind the slice.
+func (c *Ctx) globalSliceField(g *ssa.Global, k int64, field int) ssa.Value {
+	arr := c.globalSliceArray(g)
+	if arr == nil {
+		return nil
+	}
+	var out ssa.Value
+	for _, ref := range *arr.Referrers() {
+		ia, ok := ref.(*ssa.IndexAddr)
+		if !ok {
+			continue
+		}
+		if n, isC := constIntVal(ia.Index); !isC || n != k {
+			continue
+		}
+		for _, r2 := range *ia.Referrers() {
+			fa, ok := r2.(*ssa.FieldAddr)
+			if !ok || fa.Field != field {
+				continue
+			}
+			for _, r3 := range *fa.Referrers() {
+				if st, ok := r3.(*ssa.Store); ok && st.Addr == ssa.Value(fa) {
+					if out != nil {
+						return nil
+					}
+					out = st.Val
+				}
+			}
+		}
+	}
+	return out
 }
 
 // localArrayElems: the values stored by constant index into a local array that is only ever written that
